@@ -641,6 +641,9 @@ void exhaustive_unary(Ctx& c, unsigned chunk, unsigned nchunks) {
     long bad_neg = 0, bad_abs = 0, bad_sqrt = 0;
     for (uint64_t base = lo; base < hi; base += N) {
         for (size_t i = 0; i < N; ++i) { uint32_t b = (uint32_t)(base + i); std::memcpy(&in[i], &b, 4); }
+        // the one pattern on which the scalar operations themselves are undefined (-INT_MIN, abs(INT_MIN)) is not handed to the library: its generic
+        // classes are plain C++ loops, and the property does not speak about inputs whose scalar result does not exist
+        if (std::is_integral<T>::value && std::is_signed<T>::value) for (size_t i = 0; i < N; ++i) { T w; if (!Sc<T>::neg(in[i], w)) { in[i] = T(0); ++c.notes["skipped:scalar-operation-undefined"]; } }
         launder(in);
         V x(in, false);
         { V r = -x; r.store(o, false); for (size_t i = 0; i < N; ++i) { T w; if (Sc<T>::neg(in[i], w)) { ++c.compared; if (!same_val(o[i], w)) { ++c.bad; if (!bad_neg++ && c.mode.empty()) { c.mode = "lane-mismatch:-v"; c.first_bad = "exhaustive -v in=" + vstr(in[i]) + " got " + vstr(o[i]); } } } } }
